@@ -119,9 +119,24 @@ def names_in(pattern):
 
 
 def classify(pattern, missing, extra, subs=None):
-    """Known discrepancy classes, keyed by what the pattern looks like (not by the tree)."""
+    """Known discrepancy classes, keyed by what the pattern looks like (not by the tree). A tree
+    may show two classes at once (one explains the extra paths, another the missing ones): the
+    result is then both names joined by '+', only if each side is explained on its own."""
+    if missing and extra:
+        ce, cm = _classify1(pattern, [], extra, subs), _classify1(pattern, missing, [], subs)
+        return f"{cm}+{ce}" if ce and cm else None
+    return _classify1(pattern, missing, extra, subs)
+
+
+def _classify1(pattern, missing, extra, subs=None):
     if pattern.endswith("/**") and not missing and extra == [pattern[:-2]]:
         return "trailing-recursive-wildcard-records-its-base-even-when-it-is-no-directory"
+    if extra and not missing and only_by_empty_last_component(pattern, subs or {}, extra):
+        return "last-component-of-several-wildcards-matches-empty"
+    if extra and not missing and only_by_negated_set(pattern, subs or {}, extra):
+        # the scan filters the standard glob's result through the same regex, so a directory can
+        # be recorded because [!a] took its trailing separator
+        return "negated-set-matches-separator"
     if pattern.endswith("/") or extra or not missing or not all(m.endswith("/") for m in missing):
         return None
     subs = subs or {}
@@ -144,6 +159,25 @@ def only_by_negated_set(pattern, subs, paths):
     regex = convert_nglob_to_regex(pattern, dict(subs))
     fixed = re.sub(r"\[\^([^\]]*)\]", r"[^\1/]", regex)
     return all(re.fullmatch(fixed, p) is None for p in paths)
+
+
+def only_by_empty_last_component(pattern, subs, paths):
+    """True when every path of `paths` is a directory (trailing separator) that the regex accepts
+    only because the last component of the pattern, made of several wildcards, matches the empty
+    string: `*/${*m}*` accepts `a/`, which no scan of any tree returns for that pattern."""
+    from stepup.core.nglob import convert_nglob_to_regex
+
+    if "/" not in pattern.rstrip("/"):
+        return False
+    head, tail = pattern.rstrip("/").rsplit("/", 1)
+    try:
+        tail_rx = convert_nglob_to_regex(tail, dict(subs))
+        head_rx = convert_nglob_to_regex(head, dict(subs))
+    except Exception:  # noqa: BLE001
+        return False
+    if re.fullmatch(tail_rx, "") is None:
+        return False
+    return bool(paths) and all(p.endswith("/") and re.fullmatch(head_rx, p[:-1]) is not None for p in paths)
 
 
 def jobs(tier, seed):
@@ -270,6 +304,8 @@ def run_job(spec):
                         cls = "negated-set-matches-separator"
                     elif pattern.endswith("/**") and got ^ fresh == {pattern[:-2]}:
                         cls = "trailing-recursive-wildcard-records-its-base-even-when-it-is-no-directory"
+                    elif got - fresh and not fresh - got and only_by_empty_last_component(pattern, subs, got - fresh):
+                        cls = "last-component-of-several-wildcards-matches-empty"
                     key = f"C17|will_change|{cls}" if cls else f"C17|will_change|{pattern}|{sorted(deleted)}|{sorted(added)}"
                     acc.violation(key, {"check": "will_change(deleted, added) vs fresh scan", "pattern": pattern,
                                         "subs": subs, "old_tree": sorted(a), "new_tree": sorted(b),
@@ -288,6 +324,8 @@ def run_job(spec):
                     tree[p.rstrip("/")] = p.endswith("/")
                     if p not in refglob.scan(pattern, tree, subs):
                         cls = "negated-set-matches-separator" if only_by_negated_set(pattern, subs, [p]) else None
+                        if cls is None and only_by_empty_last_component(pattern, subs, [p]):
+                            cls = "last-component-of-several-wildcards-matches-empty"
                         key = f"C17|extend|{cls}" if cls else f"C17|extend|{pattern}|{p}"
                         acc.violation(key, {"check": "extend() accepts a path no scan returns", "pattern": pattern,
                                             "subs": subs, "path": p}, None)
